@@ -177,6 +177,12 @@ func matrixShape(name string) *pipeline.Matrix {
 		return &pipeline.Matrix{Setup: pipeline.MatrixSetup{"os": {"linux"}}}
 	case "setup_os2":
 		return &pipeline.Matrix{Setup: pipeline.MatrixSetup{"os": {"mac"}}}
+	case "shadow_a", "shadow_b":
+		// same leftover fields - one of them NAMED `setup` - but different real setups
+		return &pipeline.Matrix{Setup: pipeline.MatrixSetup{"": {"a", map[string]string{"shadow_a": "b", "shadow_b": "c"}[name]}},
+			RemainingFields: map[string]any{"setup": []any{"x"}, "note": "n"}}
+	case "list_linux":
+		return &pipeline.Matrix{Setup: pipeline.MatrixSetup{"": {"linux"}}}
 	case "dim_arch":
 		return &pipeline.Matrix{Setup: pipeline.MatrixSetup{"arch": {"linux"}}}
 	case "adj_base":
